@@ -45,6 +45,13 @@ class Codec:
             body.append("%s=%s" % (t, len(groups)))
             for group in groups:
                 for tag in group.tags:
+                    if tag in {
+                        FTag.BeginString,
+                        FTag.BodyLength,
+                        FTag.MsgType,
+                        FTag.CheckSum,
+                    }:
+                        raise EncodingError(f"Tag {tag} can't be a group member")
                     self._addTag(body, tag, group)
         else:
             value = str(msg[t])
@@ -269,7 +276,11 @@ class Codec:
                 return (None, parsed_length, None)
             tag, value = toks
 
-            if not (tag.isascii() and tag.isdigit()) or len(tag) > 18:
+            if (
+                not (tag.isascii() and tag.isdigit())
+                or len(tag) > 18
+                or tag[0] == "0"  # tags are never sent with leading zeros
+            ):
                 assert silent, f"invalid tag {m}"
                 return (None, parsed_length, None)
 
